@@ -16,8 +16,8 @@ import sys
 rows = []
 _print = print
 print = lambda x: rows.append(x)
-print("| seeded change | property | what it does | needs to manifest | caught by (exit) |")
-print("|---|---|---|---|---|")
+print("| seeded change | property | what it does | needs to manifest | first run: check (exit) | after strengthening |")
+print("|---|---|---|---|---|---|")
 for d in sorted(glob.glob(os.path.join(root, "seeded", "*", ""))):
     name = os.path.basename(d[:-1])
     try:
@@ -27,10 +27,15 @@ for d in sorted(glob.glob(os.path.join(root, "seeded", "*", ""))):
         continue
     ch = m.get("what_was_run", {}).get("checks", {})
     by = ", ".join("%s (%s)" % (k, v.get("exit")) for k, v in sorted(ch.items())) or "—"
+    own = ch.get(m.get("property", "?"), {}).get("exit")
     if not m.get("caught"):
         by += " **missed**"
-    print("| `%s` | %s | %s | %s | %s |" % (name, m.get("property", "?"), clip(m.get("summary", ""), 230),
-                                          clip(m.get("needs_to_manifest", ""), 170), by))
+    elif own not in (1, None):
+        by += " (own check missed)"
+    cas = m.get("caught_after_strengthening")
+    after = "—" if cas is None else ("caught" if cas is True else "still missed" if cas is False else clip(cas, 120))
+    print("| `%s` | %s | %s | %s | %s | %s |" % (name, m.get("property", "?"), clip(m.get("summary", ""), 230),
+                                               clip(m.get("needs_to_manifest", ""), 170), by, after))
 
 print = _print
 if "--write" in sys.argv:
